@@ -42,7 +42,7 @@ EmptySt ==
   [tid |-> "", family |-> "", clients |-> {}, docs |-> {}, threshold |-> 0, interval |-> 0,
    log |-> <<>>, epoch |-> <<>>, removed |-> <<>>, nopres |-> <<>>, ref |-> <<>>, pre |-> <<>>,
    rep |-> <<>>, resp |-> <<>>, att |-> <<>>, gcoff |-> <<>>, active |-> <<>>, lastReq |-> <<>>,
-   lastResCp |-> <<>>, hist |-> <<>>, row |-> <<>>, held |-> <<>>]
+   lastResCp |-> <<>>, hist |-> <<>>, row |-> <<>>, held |-> <<>>, rev |-> <<>>, restoreAt |-> <<>>]
 
 InitSt(e) ==
   LET cs == Range(e.clients)
@@ -66,7 +66,9 @@ InitSt(e) ==
                                              \* successful request of an attached participating client
       lastResCp |-> [k \in K |-> <<0, 0>>],  \* checkpoint of the last response of the session
       hist    |-> [k \in K |-> [past |-> <<>>, future |-> <<>>]],
-      held    |-> <<>>]                      \* locks held per handler goroutine (concurrent traces)
+      held    |-> <<>>,                      \* locks held per handler goroutine (concurrent traces)
+      rev     |-> [d \in ds |-> 0],          \* log head at which the revision was taken (0: none)
+      restoreAt |-> [d \in ds |-> 0]]        \* the log row a restore appended (0: none)
 
 ----------------------------------------------------------------------------
 (* Derived notions *)
@@ -467,7 +469,9 @@ EditStep(s, e) ==
       \* C14: undo returns to the content before the edit, redo to the content after it
       pushed == e.ev = "Edit" /\ e.ok /\ old.has /\ new.undon = old.undon + 1
       undone == e.ev = "Undo" /\ e.ok /\ old.has /\ new.undon = old.undon - 1 /\ old.past # <<>>
-      redone == e.ev = "Redo" /\ e.ok /\ old.has /\ new.undon = old.undon + 1 /\ old.future # <<>>
+      \* (a redo that the ghost tracks must restore even when it pushes nothing back on the undo stack:
+      \* a reverse operation that silently skips is exactly the failure)
+      redone == e.ev = "Redo" /\ e.ok /\ old.has /\ old.redo /\ old.future # <<>>
       undoExact == undone => new.ncontent = old.past[Len(old.past)]
       redoExact == redone => new.ncontent = old.future[Len(old.future)]
       \* kinds whose restoration C14 calls approximate: the ghost does not reach across them
@@ -475,7 +479,7 @@ EditStep(s, e) ==
       past2 == IF barrier THEN <<>>
                ELSE IF pushed THEN Append(old.past, old.ncontent)
                ELSE IF undone THEN SubSeq(old.past, 1, Len(old.past) - 1)
-               ELSE IF redone THEN Append(old.past, old.ncontent)
+               ELSE IF redone THEN (IF new.undon = old.undon + 1 THEN Append(old.past, old.ncontent) ELSE <<>>)
                ELSE IF old.has /\ e.ev \in {"Undo", "Redo"} /\ new.undon # old.undon THEN <<>>
                ELSE IF old.has THEN old.past ELSE <<>>
       future2 == IF pushed THEN (IF new.redo THEN old.future ELSE <<>>)
@@ -504,7 +508,10 @@ RefStep(s, e) ==
            \* C18: YSON export -> text -> parse -> import -> export is the identity
            Chk((e.ok /\ Has(e, "yson_ok")) => (e.yson_ok /\ e.yson_before = e.yson_after), "YsonRoundTrip") \cup
            \* C10: after a compaction the rebuilt log yields the content from before
-           Chk((s.pre[d].has /\ e.s = Len(s.log[d])) => e.content = s.pre[d].content, "CompactionKeepsContent")
+           Chk((s.pre[d].has /\ e.s = Len(s.log[d])) => e.content = s.pre[d].content, "CompactionKeepsContent") \cup
+           \* C18: the row a restore appended brings the reference back to the content at revision creation
+           Chk((e.ok /\ s.restoreAt[d] = e.s /\ s.rev[d] >= 1 /\ s.rev[d] <= Len(s.ref[d]))
+                 => e.ncontent = s.ref[d][s.rev[d]].ncontent, "RestoreReturnsContent")
       s2 == [s EXCEPT !.ref = Upd(@, d, Append(@[d], [content |-> e.content, ncontent |-> e.ncontent, pres |-> e.pres])),
                       !.pre = IF e.s = Len(s.log[d]) THEN Upd(@, d, [has |-> FALSE, content |-> ""]) ELSE @]
   IN R(s2, v)
@@ -569,8 +576,17 @@ DroppedStep(s, e) ==
 \* C16: every request of the phase returned (nothing is blocked for good)
 PhaseStep(s, e) == R(s, Chk(e.blocked = <<>>, "Completion") \cup Chk(e.drift = <<>>, "ScheduleDrift"))
 
+\* ---- revisions (C18): the content a restore writes is the content at revision creation ----
+RevisionStep(s, e) ==
+  R([s EXCEPT !.rev = Upd(@, e.d, IF e.ok THEN Len(s.log[e.d]) ELSE @[e.d])], Chk(e.ok, "RevisionNeverFails"))
+\* (the restore's own PushPull came first: its row is the log head now)
+RestoreStep(s, e) ==
+  R([s EXCEPT !.restoreAt = Upd(@, e.d, IF e.ok THEN Len(s.log[e.d]) ELSE @[e.d])], Chk(e.ok, "RestoreNeverFails"))
+
 Step(s, e) ==
   CASE e.ev = "Init" -> R(InitSt(e), {})
+    [] e.ev = "Revision" -> RevisionStep(s, e)
+    [] e.ev = "Restore" -> RestoreStep(s, e)
     [] e.ev = "PP" -> PPStep(s, e)
     [] e.ev = "PPC" -> LET r == PPCStep(s, e) IN
                        R(r.st, r.v \cup Chk(e.rows # <<>> => <<"push", "W">> \in Held(s, e.gid), "CreateUnderPushLock"))
